@@ -20,7 +20,11 @@
 
     net/http (Origin): the status on the wire is the first header written; a later
     WriteHeader is ignored ("superfluous"); a Write without header writes 200 first; if the
-    handler returns without writing anything net/http sends 200.
+    handler returns without writing anything net/http sends 200.  A first WriteHeader(n) with
+    n < 100 or n > 999 is rejected (checkWriteHeaderCode): net/http's response and httptest's
+    recorder PANIC with the string "invalid WriteHeader code n" before anything is sent or
+    recorded — for Relay that is a handler panic raised inside the call.  (Once a header went
+    out the superfluous-check comes first: no panic, the call is ignored by net/http.)
 
     Abstractions: request fields, body chunks and panic values are opaque numbers; the log
     handler's rendering of a panic value is an oracle [render] ([None] = the rendering itself
@@ -41,7 +45,8 @@ Inductive via := ViaWrite | ViaCopyString | ViaCopyFile | ViaHelper.
 
 Inductive act :=
 | Nop                           (* touches only the header map: W.Header().Set(..) *)
-| Hdr (code : N)                (* W.WriteHeader(code) *)
+| Hdr (code : N)                (* W.WriteHeader(code); any int: the harness maps negative ints above 999,
+                                   all the model needs to know about them is [invalid_code] *)
 | Body (how : via) (chunk : N)  (* W.Write / io.Copy(W, ..) of one chunk *)
 | Flush (with_error : bool)     (* W.Flush() / W.FlushError(): commits the header (implicit 200) *)
 | Panic (p : pval).             (* panic(p); execution of the handler stops here *)
@@ -54,6 +59,16 @@ Record rw := mkRw {
   wbody : list N           (* body chunks sent, in order *)
 }.
 Definition rw0 : rw := mkRw 0 None [].
+
+(** net/http has sent a header (wroteHeader) *)
+Definition started (w : rw) : bool := match wire_hdr w with Some _ => true | None => false end.
+
+(** checkWriteHeaderCode: codes net/http refuses; Origin.WriteHeader panics with them unless a
+    header was written before (then the call is superfluous and returns) *)
+Definition invalid_code (c : N) : bool := (c <? 100) || (999 <? c).
+Definition origin_rejects (c : N) (w : rw) : bool := negb (started w) && invalid_code c.
+(** the panic value of that panic (the string "invalid WriteHeader code n"), as an opaque value *)
+Definition invalid_hdr_pv : N := 29.
 
 Definition origin_write_header (c : N) (w : rw) : rw :=
   match wire_hdr w with
@@ -87,7 +102,9 @@ Fixpoint exec (fr : bool) (sc : script) (w : rw) : rw * option pval :=
   match sc with
   | [] => (w, None)
   | Nop :: r => exec fr r w
-  | Hdr c :: r => exec fr r (rw_write_header c w)
+  | Hdr c :: r =>
+      (* ResponseWriter.WriteHeader delegates FIRST: when Origin.WriteHeader panics nothing is recorded *)
+      if origin_rejects c w then (w, Some (PV invalid_hdr_pv)) else exec fr r (rw_write_header c w)
   | Body _ ch :: r => exec fr r (rw_write ch w)
   | Flush _ :: r => exec fr r (rw_flush fr w)
   | Panic p :: _ => (w, Some p)
@@ -158,13 +175,18 @@ End Relay.
 
 (** ** Script predicates used by the property *)
 
-(** the value the handler panics with, if it does *)
-Fixpoint panic_of (sc : script) : option pval :=
+(** the value the handler panics with, if it does: its own panic(p), or net/http's panic inside a
+    first WriteHeader with a code it rejects ([started]: a header went out before) *)
+Fixpoint panic_from (started : bool) (sc : script) : option pval :=
   match sc with
   | [] => None
+  | Nop :: r => panic_from started r
+  | Hdr c :: r => if negb started && invalid_code c then Some (PV invalid_hdr_pv) else panic_from true r
+  | Body _ _ :: r => panic_from true r
+  | Flush _ :: r => panic_from true r
   | Panic p :: _ => Some p
-  | _ :: r => panic_of r
   end.
+Definition panic_of (sc : script) : option pval := panic_from false sc.
 
 (** the handler panics before any header was written (explicitly or by a body write) *)
 Fixpoint panics_before_header (sc : script) : bool :=
@@ -172,7 +194,8 @@ Fixpoint panics_before_header (sc : script) : bool :=
   | [] => false
   | Nop :: r => panics_before_header r
   | Panic _ :: _ => true
-  | _ => false                  (* Hdr, Body and Flush put a status on the wire *)
+  | Hdr c :: _ => invalid_code c  (* rejected by net/http: the call panics, no status was written *)
+  | _ => false                  (* a valid Hdr, Body and Flush put a status on the wire *)
   end.
 
 (** the status is set at most once: no WriteHeader once a header went out *)
@@ -180,21 +203,30 @@ Fixpoint set_once_from (started : bool) (sc : script) : bool :=
   match sc with
   | [] => true
   | Nop :: r => set_once_from started r
-  | Hdr _ :: r => if started then false else set_once_from true r
+  | Hdr c :: r => if started then false else if invalid_code c then true (* panics: the handler ends here *)
+                  else set_once_from true r
   | Body _ _ :: r => set_once_from true r
   | Flush _ :: r => set_once_from true r
   | Panic _ :: _ => true
   end.
 Definition set_once (sc : script) : bool := set_once_from false sc.
 
-(** status codes in the range where the net/http model above is faithful (below 200: 1xx
-    informational headers do not end the header phase, 0..99 and >= 1000 make WriteHeader panic) *)
-Fixpoint codes_ok (sc : script) : bool :=
+(** status codes for which the net/http model above is faithful and the statements hold: the FIRST
+    header is a final one (200..999; 1xx informational headers do not end the header phase) or one
+    net/http rejects (0..99, >= 1000: the handler ends there with a panic); a WriteHeader after a header
+    went out (superfluous for net/http, outside [set_once]) does not reset Status to 0 *)
+Fixpoint codes_ok_from (started : bool) (sc : script) : bool :=
   match sc with
   | [] => true
-  | Hdr c :: r => (200 <=? c) && (c <=? 999) && codes_ok r
-  | _ :: r => codes_ok r
+  | Nop :: r => codes_ok_from started r
+  | Hdr c :: r => if started then negb (c =? 0) && codes_ok_from true r
+                  else if invalid_code c then true
+                  else (200 <=? c) && codes_ok_from true r
+  | Body _ _ :: r => codes_ok_from true r
+  | Flush _ :: r => codes_ok_from true r
+  | Panic _ :: _ => true
   end.
+Definition codes_ok (sc : script) : bool := codes_ok_from false sc.
 
 Definition no_abort (sc : script) : Prop := panic_of sc <> Some AbortHandler.
 Definition no_abortb (sc : script) : bool :=
